@@ -117,7 +117,7 @@ package dag
 //@   requires skip.pre: v != nil && ParentsNonNil()
 //@   modifies Vertex.status
 //@   ensures skip.only {C14}: forall u *Vertex :: u.status == old(u.status) || u.status == runSkip
-//@   ensures skip.parents {C14}: forall i int :: 0 <= i && i < len(v.Parents) ==> v.Parents[i].status == runSkip
+//@   ensures skip.parents {C14,C13}: forall i int :: 0 <= i && i < len(v.Parents) ==> v.Parents[i].status == runSkip
 //@   loop "for _, c := range v.Parents"
 //@     invariant skip.sofar: forall i int :: 0 <= i && i <= $idx ==> v.Parents[i].status == runSkip
 //@     invariant skip.onlyinv: forall u *Vertex :: u.status == old(u.status) || u.status == runSkip
@@ -209,18 +209,26 @@ package dag
 
 // ---- cycle check -------------------------------------------------------------------------------------
 //@ spec func ChildrenNonNil() bool = forall u *Vertex :: u != nil ==> (forall i int :: 0 <= i && i < len(u.Children) ==> u.Children[i] != nil)
+// TravIn: every vertex ID marked traversed has its vertex in the sorted list (so a successful sort lists every vertex).
+//@ spec func TravIn(sorted *[]*Vertex, status *map[ID]visitStatus) bool = forall id ID :: (id in *status) && (*status)[id] == traversed
+//@     ==> (exists k int :: 0 <= k && k < len(*sorted) && (*sorted)[k] != nil && (*sorted)[k].ID == id)
 //@ func visit
 //@   props C16 C19
 //@   requires visit.pre: sorted != nil && status != nil && *status != nil && v != nil && ChildrenNonNil()
+//@   requires visit.travin {C16}: TravIn(sorted, status)
 //@   modifies *sorted, mapof(*status)
 //@   ensures visit.cycle {C16}: result != nil ==> erris(result, ErrorGraphHasCycle)
 //@   ensures visit.done {C16}: result == nil ==> (v.ID in *status) && (*status)[v.ID] == traversed
 //@   ensures visit.kept {C16}: forall id ID :: old(id in *status) && old((*status)[id]) == traversed ==> (id in *status) && (*status)[id] == traversed
+//@   ensures visit.succ {C16}: result == nil ==> (forall id ID :: (id in *status) ==> ((*status)[id] == traversed || (old(id in *status) && (*status)[id] == old((*status)[id]))))
+//@   ensures visit.travin.kept {C16}: TravIn(sorted, status)
 //@   ensures visit.grow {C16}: len(*sorted) >= old(len(*sorted)) && (forall q int :: 0 <= q && q < old(len(*sorted)) ==> (*sorted)[q] == old((*sorted)[q]))
 //@   loop "for _, child := range v.Children"
 //@     modifies *sorted, mapof(*status)
 //@     invariant visit.kept.inv: forall id ID :: old(id in *status) && old((*status)[id]) == traversed ==> (id in *status) && (*status)[id] == traversed
 //@     invariant visit.grow.inv: len(*sorted) >= old(len(*sorted)) && (forall q int :: 0 <= q && q < old(len(*sorted)) ==> (*sorted)[q] == old((*sorted)[q]))
+//@     invariant visit.succ.inv: forall id ID :: (id in *status) ==> ((*status)[id] == traversed || (id == v.ID && (*status)[id] == visited) || (old(id in *status) && (*status)[id] == old((*status)[id])))
+//@     invariant visit.travin.inv: TravIn(sorted, status)
 
 //@ func (*Graph).DepthFirstSort
 //@   props C16 C19
@@ -228,9 +236,17 @@ package dag
 //@   allocates map[ID]visitStatus, []*Vertex
 //@   modifies
 //@   ensures dfs.cycle {C16}: result1 != nil ==> erris(result1, ErrorGraphHasCycle)
-//@   ensures dfs.all {C16}: result1 == nil ==> true
+//@   ensures dfs.all {C16}: result1 == nil ==> (forall id ID :: (id in g.Vertices) ==> (exists k int :: 0 <= k && k < len(result0) && result0[k] != nil && result0[k].ID == id))
+//@   loop "for _, vertex := range g.Vertices"
+//@     modifies mapof(status)
+//@     invariant dfs.init: forall q ID :: (q in $seen) ==> (q in status) && status[q] == unvisited
+//@     invariant dfs.init.only: forall id ID :: (id in status) ==> status[id] == unvisited
+//@     invariant dfs.init.sorted: len(sorted) == 0
 //@   loop "for _, v := range g.Vertices"
 //@     modifies *&sorted, mapof(status)
+//@     invariant dfs.vals {C16}: forall id ID :: (id in status) ==> (status[id] == unvisited || status[id] == traversed)
+//@     invariant dfs.seen {C16}: forall q ID :: (q in $seen) ==> (q in status) && status[q] == traversed
+//@     invariant dfs.travin {C16}: TravIn(&sorted, &status)
 
 // ---- Run: the scheduler loop ------------------------------------------------------------------------
 // The loop is the only writer of task status and of the error list. Channel invariant (assumed at receive,
